@@ -222,6 +222,7 @@ struct ThreadPlan{
     std::vector<Mismatch> mism; long nmism = 0;
     std::ostringstream os{std::ios::out | std::ios::binary};
     Res scratch;
+    std::vector<Res> kept; // concurrent-first repetitions: every result is kept and compared once the sequential reference exists
 };
 
 std::string state_class(HState const &h){
@@ -277,7 +278,9 @@ void mon_c12(CaseCtx &c, Rng &rng){
     Rng prng = rng.fork();
     std::vector<Call> pool = make_pool(*T, prng);
     std::vector<Res> ref(pool.size());
-    {
+    std::string ref_state;
+    bool have_ref = false;
+    auto compute_ref = [&]()->bool{
         std::ostringstream os(std::ios::out | std::ios::binary);
         Res again;
         for(size_t i=0; i<pool.size(); i++){
@@ -285,11 +288,18 @@ void mon_c12(CaseCtx &c, Rng &rng){
             run_call(*T, pool[i], again, os);
             if (!again.same(ref[i])){ // the sequential reference is not a function of the state: nothing can be decided for this call
                 c.inconc(std::string("sequential-reference-not-repeatable:") + kind_name(pool[i].kind));
-                return;
+                return false;
             }
         }
-    }
-    std::string ref_state; { std::ostringstream os(std::ios::out | std::ios::binary); T->write(os, true); ref_state = os.str(); }
+        std::ostringstream ws(std::ios::out | std::ios::binary); T->write(ws, true); ref_state = ws.str();
+        have_ref = true;
+        return true; };
+    // Lazily built state that belongs to the PROCESS (function-local statics, global tables) rather than to the object is warmed by the sequential
+    // reference itself: with the reference first, the concurrent calls below only ever read it.  Two cases in five therefore run their first (cold)
+    // repetition BEFORE any of the pool's calls has been made in this case; the results are kept and judged once the reference exists.  A pure function
+    // of the case index, no random draw (the other cases are unchanged).
+    bool concurrent_first = (((unsigned long long) c.index * 2654435761ULL) >> 7) % 5 < 2;
+    if (!concurrent_first && !compute_ref()) return;
     c.count("pool_calls", (long long) pool.size());
     c.count("state:" + fam + ":" + cls);
 
@@ -326,7 +336,8 @@ void mon_c12(CaseCtx &c, Rng &rng){
         std::vector<std::thread> th;
         for(int t=0; t<nthreads; t++){
             ThreadPlan *p = plans[(size_t) t].get();
-            th.emplace_back([p, &S, &pool, &ref, &arrived, &go_flag, &clock, reports_before](){
+            const bool keep = !have_ref;
+            th.emplace_back([p, &S, &pool, &ref, &arrived, &go_flag, &clock, reports_before, keep](){
                 arrived.fetch_add(1, std::memory_order_acq_rel);
                 while(go_flag.load(std::memory_order_acquire) == 0) sched_yield();
                 volatile long spin = 0; for(long k=0; k<p->skew; k++) spin = spin + 1;
@@ -336,7 +347,8 @@ void mon_c12(CaseCtx &c, Rng &rng){
                     run_call(S, pool[(size_t) id], p->scratch, p->os);
                     if (k == 0) p->t_first = clock.fetch_add(1, std::memory_order_relaxed);
                     p->done = (long) k + 1;
-                    if (!p->scratch.same(ref[(size_t) id])){
+                    if (keep){ p->kept.push_back(p->scratch); }
+                    else if (!p->scratch.same(ref[(size_t) id])){
                         p->nmism++;
                         if (p->mism.size() < 3){ Mismatch mm; mm.call = id; mm.pos = (int) k; mm.got = p->scratch; p->mism.push_back(std::move(mm)); }
                     }
@@ -350,6 +362,20 @@ void mon_c12(CaseCtx &c, Rng &rng){
         while(arrived.load(std::memory_order_acquire) < nthreads) sched_yield();
         go_flag.store(1, std::memory_order_release);
         for(auto &t : th) t.join();
+        if (!have_ref){
+            if (!compute_ref()) return;
+            c.count("runs_concurrent_before_reference");
+            for(auto &p : plans){
+                for(size_t k=0; k<p->kept.size(); k++){
+                    int id = p->calls[k];
+                    if (!p->kept[k].same(ref[(size_t) id])){
+                        p->nmism++;
+                        if (p->mism.size() < 3){ Mismatch mm; mm.call = id; mm.pos = (int) k; mm.got = p->kept[k]; p->mism.push_back(std::move(mm)); }
+                    }
+                }
+                p->kept.clear();
+            }
+        }
 
         // overlap accounting from the logical clock
         int overlapping = 0; long min_first = -1; int together_in_first = 0;
